@@ -14,9 +14,7 @@
 (* Same scheme as CheckRunnerTrace.tla (C_Step = conforming design action, *)
 (* M_Step = monitor-only fold of the CheckRunnerObs predicates).  The      *)
 (* differences are in the driver, which here is a test and not the         *)
-(* harness: it may abort as soon as a recipient is refused, it commits     *)
-(* after a per-recipient body that was refused (the pipeline then aborts   *)
-(* the targets), and it may simply stop ("End" closes the trace whatever   *)
+(* harness: it may abort as soon as a recipient is refused, and it may simply stop ("End" closes the trace whatever   *)
 (* the driver state: the predicates are judged on the prefix).             *)
 (***************************************************************************)
 EXTENDS CheckRunnerTrace
@@ -33,14 +31,6 @@ H_Abort ==
   /\ drv' = [drv EXCEPT !.ph = "fin", !.fin = "abort"]
   /\ UNCHANGED <<cfg, k, metaQ, used, tg, devs, delays, hist>>
 
-\* Commit after BodyNonAtomic refused the message for every recipient: the targets are aborted
-H_CommitRefused ==
-  /\ IsEv("Cmd") /\ Ev.op = "commit" /\ run.st = "idle"
-  /\ drv.ph = "fin" /\ drv.fin = "abort" /\ cfg.path = "na" /\ obs.dead
-  /\ obs' = ObsCmd(obs, cfg, "commit", "")
-  /\ run' = FinRun("commit", "abort")
-  /\ UNCHANGED <<cfg, drv, k, metaQ, used, tg, devs, delays, hist>>
-
 \* the test stopped observing
 H_End ==
   /\ IsEv("End") /\ run.st = "idle" /\ drv.ph # "done"
@@ -48,7 +38,7 @@ H_End ==
   /\ drv' = [drv EXCEPT !.ph = "done"]
   /\ UNCHANGED <<cfg, k, metaQ, used, tg, run, devs, delays, hist>>
 
-HConform == C_Cmd \/ H_Abort \/ H_CommitRefused \/ C_Call \/ C_Mod \/ C_Tgt \/ C_Ret \/ H_End
+HConform == C_Cmd \/ H_Abort \/ C_Call \/ C_Mod \/ C_Tgt \/ C_Ret \/ H_End
 
 H_Step ==
   /\ ~drift
